@@ -69,11 +69,14 @@ pub struct State {
     /// scratch table handed out when the mapper asks for a frame that does not exist
     pub scratch: *mut u8,
     pub contiguous_block: Option<(*mut u8, usize)>,
+    pub memfd_block: Option<(*mut u8, usize)>,
     pub root: usize,
     /// hook run inside deallocate_frame before poisoning (C10 "at that moment" checks)
     pub dealloc_hook: Option<fn(&mut State, u64)>,
     pub hook_ctx: u64,
     pub poison_on_free: bool,
+    /// memfd backing the frames (software-MMU backend), -1 otherwise
+    pub memfd: i32,
 }
 
 pub struct Arena {
@@ -92,10 +95,38 @@ impl Arena {
 
     /// `phys`: distinct 4 KiB-aligned physical addresses; `contiguous`: one block (needed for OffsetPageTable)
     pub fn new(phys: Vec<u64>, contiguous: bool, n_data: usize, seed: u64) -> Arena {
+        Arena::new_backend(phys, contiguous, false, n_data, seed)
+    }
+
+    /// memfd backend: every frame is a slot of a memfd that is mapped once linearly for the monitors and can be
+    /// aliased at other virtual addresses by the software MMU
+    #[cfg(not(miri))]
+    pub fn new_memfd(phys: Vec<u64>, n_data: usize, seed: u64) -> Arena {
+        Arena::new_backend(phys, false, true, n_data, seed)
+    }
+
+    pub fn new_backend(phys: Vec<u64>, contiguous: bool, memfd: bool, n_data: usize, seed: u64) -> Arena {
         let n = phys.len();
         let mut ptrs = Vec::with_capacity(n);
         let mut block = None;
-        if contiguous {
+        let mut fd: i32 = -1;
+        #[cfg(not(miri))]
+        if memfd {
+            unsafe {
+                fd = libc::memfd_create(b"vx-simphys\0".as_ptr() as *const libc::c_char, 0);
+                assert!(fd >= 0);
+                assert!(libc::ftruncate(fd, ((n + 1) * FRAME) as libc::off_t) == 0);
+                let b = libc::mmap(core::ptr::null_mut(), (n + 1) * FRAME, libc::PROT_READ | libc::PROT_WRITE, libc::MAP_SHARED, fd, 0) as *mut u8;
+                assert!(b as isize != -1);
+                for i in 0..n {
+                    ptrs.push(b.add(i * FRAME));
+                }
+                block = Some((b, n + 1));
+            }
+        }
+        if fd >= 0 {
+            // frames come from the memfd mapping
+        } else if contiguous {
             let l = Layout::from_size_align(FRAME * n, FRAME).unwrap();
             let b = unsafe { alloc(l) };
             assert!(!b.is_null());
@@ -121,6 +152,7 @@ impl Arena {
         for i in 0..n_data.min(n.saturating_sub(2)) {
             role[n - 1 - i] = Role::Data;
         }
+        let is_memfd = fd >= 0;
         let a = Arena {
             st: UnsafeCell::new(State {
                 ptrs,
@@ -141,11 +173,13 @@ impl Arena {
                 poisoned_this_call: Vec::new(),
                 table_frames: BTreeMap::new(),
                 scratch,
-                contiguous_block: block,
+                contiguous_block: if is_memfd { None } else { block },
+                memfd_block: if is_memfd { block } else { None },
                 root: 0,
                 dealloc_hook: None,
                 hook_ctx: 0,
                 poison_on_free: true,
+                memfd: fd,
             }),
         };
         let s = a.st();
@@ -185,7 +219,14 @@ impl Drop for Arena {
     fn drop(&mut self) {
         let s = self.st();
         unsafe {
-            if let Some((b, n)) = s.contiguous_block {
+            if let Some((b, n)) = s.memfd_block {
+                #[cfg(not(miri))]
+                {
+                    libc::munmap(b as *mut libc::c_void, n * FRAME);
+                    libc::close(s.memfd);
+                }
+                let _ = (b, n);
+            } else if let Some((b, n)) = s.contiguous_block {
                 dealloc(b, Layout::from_size_align(FRAME * n, FRAME).unwrap());
             } else {
                 for &p in s.ptrs.iter() {
